@@ -243,6 +243,9 @@ func C06(p *an.Prog, r *an.Report) {
 	// G6: options survive serialise-and-parse: the mapping reader yields only strings from the one
 	// string reader (same rule as C11.M7), so the bytes verified after a round trip are the bytes signed
 	c11OneStringReader(p, r, "C06.G6")
+	// G7: the parser's length/count arithmetic cannot wrap (same rule as C03.S4): a wrapped extent
+	// moves the signature window, and the parsed copy no longer verifies
+	narrowArith(p, r, "C06.G7", nil)
 	c01DistinctElements(p, r, "C06.G3") // "still verifies after serialise and parse" needs every parsed list element kept distinct
 }
 
